@@ -16154,6 +16154,27 @@ gcry_error_t CallasDonnerhackeFinneyShawThayerRFC4880::AsymmetricVerifyEdDSA
 		"(data (flags eddsa) (hash-algo sha512) (value %b))", (int)buflen, buf);
 	if (ret)
 		return ret;
+	// libgcrypt aborts (log_bug in mulm_25519) while decoding a public key
+	// that is neither 0x40 || 32 octets nor 0x04 || 64 octets
+	gcry_mpi_t q = NULL;
+	ret = gcry_sexp_extract_param(key, NULL, "/q", &q, NULL);
+	if (ret)
+	{
+		gcry_sexp_release(sigdata);
+		return ret;
+	}
+	unsigned int qbits = 0;
+	const unsigned char *qbuf =
+		(const unsigned char*)gcry_mpi_get_opaque(q, &qbits);
+	size_t qlen = (qbits + 7) / 8;
+	bool qok = ((qbuf != NULL) && (((qlen == 33) && (qbuf[0] == 0x40)) ||
+		((qlen == 65) && (qbuf[0] == 0x04))));
+	gcry_mpi_release(q);
+	if (!qok)
+	{
+		gcry_sexp_release(sigdata);
+		return gcry_error(GPG_ERR_BAD_PUBKEY); // error: bad point encoding
+	}
 	size_t rlen = (gcry_mpi_get_nbits(r) + 7) / 8;
 	size_t slen = (gcry_mpi_get_nbits(s) + 7) / 8;
 	if ((rlen == 0) || (rlen > 32) || (slen == 0) || (slen > 32))
